@@ -8,7 +8,7 @@ import json, os, re, subprocess, sys, time, random, hashlib
 from pathlib import Path
 
 VERIF = Path(__file__).resolve().parent.parent
-LEAN = VERIF / 'lean'
+LEAN = Path(os.environ.get('FPY_LEAN_DIR', str(VERIF / 'lean')))
 REPO = Path(os.environ.get('FPY_REPO', '/repo'))
 DRV = LEAN / '.lake' / 'build' / 'bin' / 'fpydrv'
 STD_AXIOMS = {'propext', 'Classical.choice', 'Quot.sound'}
